@@ -43,6 +43,11 @@ def eqF : Val → Val → Bool
 /-- IEEE `!=`: true as soon as an operand is NaN -/
 def neF (a b : Val) : Bool := !eqF a b
 
+/-- product (NaN as soon as an operand is NaN; infinities are outside the model) -/
+def mul : Val → Val → Val
+  | num a, num b => num (a * b)
+  | _, _ => nan
+
 /-- `abs` (NaN stays NaN) -/
 def abs : Val → Val
   | num a => num (a.natAbs : Nat)
